@@ -1,14 +1,16 @@
 #!/bin/bash
 # usage: harness/seed_eval.sh <patch.diff> <check ids...>
-# applies a seeded change to /repo, runs the given checks (quick tier), undoes the change.
+# applies a seeded change to the repository (VERIF_REPO, default /repo; a plain copy is fine), runs the
+# given checks (quick tier), undoes the change.
 set -u
 patch="$1"; shift
 cd /verif
-if ! git -C /repo diff --quiet; then echo "/repo has uncommitted changes"; exit 2; fi
-git -C /repo apply "$patch" || { echo "patch does not apply"; exit 2; }
-trap 'git -C /repo checkout -- . ' EXIT
+REPO=${VERIF_REPO:-/repo}
+export VERIF_REPO=$REPO
+(cd $REPO && git apply "$patch") || { echo "patch does not apply"; exit 2; }
+trap '(cd $REPO && git apply -R "$patch")' EXIT
 echo "== baseline tests with the change"
-(cd /repo && /venv/bin/python -m pytest -q -p no:cacheprovider --timeout=900 --continue-on-collection-errors 2>&1 | tail -1)
+(cd $REPO && /venv/bin/python -m pytest -q -p no:cacheprovider --timeout=900 --continue-on-collection-errors 2>&1 | tail -1)
 for id in "$@"; do
   echo "== check $id"
   ./check "$id" --tier quick 2>/dev/null | grep -E "VIOLATION|KNOWN-FINDING|^\[" | cut -c1-400
